@@ -44,6 +44,12 @@ def check(run):
     max_iters = (1, 2, 3, 5, 8, 13, 30) if thorough else (1, 2, 3, 4, 6)
     tols = ('0', '1e-12', '1e-8', '1e-4', '1e-2', '1e-1', 'stop:1', 'stop:2', 'stop:3', 'stop:5') if thorough else ('0', '1e-12', '1e-4', '1e-1', 'stop:1', 'stop:2', 'stop:3')
     behaviours = scenario.generate(run, TEMPLATES, run.seed, 600 if thorough else 90, 16, max_iters=max_iters, tols=tols, workers=8)
+    # hand-written behaviours guarantee every class of the vacuity guard whatever the seed: early stops, runs ending at max_iter,
+    # diverging steps, split comparisons
+    def opt(m, tol, vb=False, ff=True):
+        return {'op': 'OptCall', 'maxIter': m, 'fixFirst': ff, 'verbose': vb, 'tol': tol, 'q': '-', 'target': 0, 'idx': 0, 'flag': False}
+    behaviours += [('se2', [opt(6, '1e-4', True), opt(3, '0')]), ('se3', [opt(4, '0', True), opt(6, 'stop:2')]), ('se2far', [opt(6, '0'), opt(4, '1e-1', True)]),
+                   ('r2', [opt(3, '0'), opt(4, '1e-12')]), ('se2', [opt(1, '0', False, False)])]
     events = []
     sessions = scenario.play(behaviours, run.seed, events, twin_every=1, split_fn=split_fn)
     rejects = scenario.validate(run, events)
